@@ -77,12 +77,12 @@ func jsonFields(t reflect.Type) map[string]reflect.StructField {
 				if et.Kind() == reflect.Pointer {
 					et = et.Elem()
 				}
-				if et.Kind() == reflect.Struct && !(sf.IsExported() && tgenValidTag(tn)) {
+				if et.Kind() == reflect.Struct && !tgenValidTag(tn) {
 					walk(et, depth+1, idx)
 					continue
 				}
 			}
-			if !sf.IsExported() {
+			if !sf.IsExported() && !tgen.EmbeddedStruct(sf) {
 				continue
 			}
 			name := sf.Name
